@@ -40,3 +40,20 @@ Print Assumptions program_roundtrip.
 Theorem disassemble_fuel_suffices : forall bs, Forall ProofsProgram.byte bs -> ModelProgram.disassemble bs <> Err OutOfFuel.
 Proof. exact ProofsProgram.disassemble_fuel_suffices. Qed.
 Print Assumptions disassemble_fuel_suffices.
+
+(* the automatic PUSH[ ] packing terminates: its loop — three counters and a `continue` that re-enters with more words — always
+   makes progress (a byte run of length 0 cannot trigger the `continue`, an emitted group is never empty), so the model's fuel
+   2 * len + 2 is never exhausted, whatever the arguments *)
+From FV Require C03.ProofsPush.
+Theorem push_auto_fuel_suffices : forall args, ModelProgram.asm_push_auto args <> Err OutOfFuel.
+Proof. exact ProofsPush.push_auto_fuel_suffices. Qed.
+Print Assumptions push_auto_fuel_suffices.
+
+(* PUSH[ ] with ANY argument list the assembler accepts (every mixture of byte-sized and word-sized values, runs of any length:
+   the 8-value opcode forms, the counted forms up to 255, short byte runs folded into words): the bytes it writes disassemble into
+   push instructions only, and the values they push are exactly the arguments, in order *)
+From FV Require C03.ProofsPushValues.
+Theorem push_auto_values : forall args bs, ModelProgram.asm_push_auto args = Ok bs ->
+  exists toks, ModelProgram.disassemble bs = Ok toks /\ ProofsPushValues.all_pushed toks = Some args.
+Proof. exact ProofsPushValues.push_auto_values. Qed.
+Print Assumptions push_auto_values.
